@@ -6,103 +6,29 @@ gone."  Stated on the life-cycle model `Model/ImageLife.lean` of `image.FromV1Im
 chain layer while creating its directory, opening it or filling it from the tar), every exit path leaves TMPDIR as it
 found it — a failed load immediately, a successful one after `CleanUp` — and no other directory of TMPDIR is ever
 touched.  The tie to the Go code is the `c06load` stream (fresh TMPDIR per load; archives that fail part-way at the
-first, a middle and the last layer).
+first, a middle and the last layer; every exit an input can reach, the other two — root node insertion, v1 layer index —
+on the model alone).
+
+Audit-2 (finding 4): the life-cycle model has no entry names, so it cannot say WHERE the loader writes.  That is the
+second half of this file, on Model/LoadDisk.lean: the loader's disk operations over the sandbox file system of the
+unpacker model — physical path resolution, `os.MkdirAll` and `os.OpenFile` that follow whatever symbolic link is in their
+way, no containment test anywhere — for every sequence of layers and entries (any names: "..", absolute, prefix look-
+alikes; any order; files, directories, links) and every choice of which entries the path tree lets through:
+`C06_load_disk_outside_unchanged` (nothing outside the extraction directory `D` is created, modified or deleted, at the
+end of a successful load and after a failed one), `C06_load_disk_no_link_inside` (no symbolic link exists below `D`, so
+none resolves outside), `C06_load_disk_failed_gone`, `C06_load_disk_cleanup` (after `CleanUp` the sandbox is the one
+`os.MkdirTemp` found, minus `D`).  Hypotheses: `D` is a directory and no symbolic link is below it when the load starts
+(`os.MkdirTemp` has just made it: it is empty) and no layer directory is called ".." (they are `layer-<i>`:
+`layerName_ne_dotdot`).  `C06_load_disk_link_would_escape` shows the model is not containment by construction: with one
+symbolic link below `D` at the start, the same operations write outside.  Not tied by a stream of its own: the hostile
+half of `c06load` observes the implementation (whole sandbox before / after load / after CleanUp); the model shares
+`cleanComps`, `resolve` and `FS` with the unpacker model, which its stream validates.  Inherited from that model: the
+directories above `D` are plain directories; an absolute link target is stored relative to `D`.
 -/
 import Scalibr.Model.ImageLife
+import Scalibr.Proofs.ImageLife
+import Scalibr.Proofs.LoadDisk
 namespace Scalibr.ImageLife
-
-theorem removeAll_addLayerDir (tmp : Tmp) (d i : Nat) : removeAll (addLayerDir tmp d i) d = removeAll tmp d := by
-  unfold removeAll addLayerDir
-  induction tmp with
-  | nil => rfl
-  | cons x tmp ih =>
-    simp only [List.map_cons]
-    by_cases hx : (x.name == d) = true
-    · have h1 : (x.name != d) = false := by simp [bne, hx]
-      simp only [hx, if_true, List.filter_cons, h1, Bool.false_eq_true, if_false]
-      exact ih
-    · have hx' : (x.name == d) = false := by cases h : (x.name == d) <;> simp_all
-      have h1 : (x.name != d) = true := by simp [bne, hx']
-      simp only [hx', Bool.false_eq_true, if_false, List.filter_cons, h1, if_true]
-      rw [ih]
-
-theorem removeAll_idem (tmp : Tmp) (d : Nat) : removeAll (removeAll tmp d) d = removeAll tmp d := by
-  unfold removeAll; simp [List.filter_filter]
-
-/-- whatever the loop does, it only ever touches the image's own directory -/
-theorem loop_others (d : Nat) : ∀ (rs : List LayerRun) (tmp : Tmp), removeAll (loop d tmp rs).2 d = removeAll tmp d := by
-  intro rs
-  induction rs with
-  | nil => intro tmp; rfl
-  | cons r rest ih =>
-    intro tmp
-    unfold loop
-    split
-    · exact ih tmp
-    · split
-      · simp [handleImageError, removeAll_idem]
-      · simp only
-        split
-        · simp [handleImageError, removeAll_idem, removeAll_addLayerDir]
-        · split
-          · simp [handleImageError, removeAll_idem, removeAll_addLayerDir]
-          · split
-            · simp [handleImageError, removeAll_idem, removeAll_addLayerDir]
-            · rw [ih, removeAll_addLayerDir]
-
-/-- a failing loop has removed the image's directory -/
-theorem loop_failed (d : Nat) : ∀ (rs : List LayerRun) (tmp : Tmp), (loop d tmp rs).1 = none →
-    (loop d tmp rs).2 = removeAll tmp d := by
-  intro rs
-  induction rs with
-  | nil => intro tmp h; simp [loop] at h
-  | cons r rest ih =>
-    intro tmp h
-    unfold loop at h ⊢
-    split
-    · rename_i he; rw [if_pos he] at h; exact ih tmp h
-    · rename_i he; rw [if_neg he] at h
-      split
-      · rfl
-      · rename_i hm; rw [if_neg hm] at h
-        simp only at h ⊢
-        split
-        · simp [handleImageError, removeAll_addLayerDir]
-        · rename_i hl; rw [if_neg hl] at h
-          split
-          · simp [handleImageError, removeAll_addLayerDir]
-          · rename_i ho; rw [if_neg ho] at h
-            split
-            · simp [handleImageError, removeAll_addLayerDir]
-            · rename_i hf; rw [if_neg hf] at h
-              rw [ih _ h, removeAll_addLayerDir]
-
-theorem loop_ok (d : Nat) : ∀ (rs : List LayerRun) (tmp : Tmp) (x : Nat), (loop d tmp rs).1 = some x → x = d := by
-  intro rs
-  induction rs with
-  | nil => intro tmp x h; simp [loop] at h; exact h.symm
-  | cons r rest ih =>
-    intro tmp x h
-    unfold loop at h
-    split at h
-    · exact ih tmp x h
-    · split at h
-      · simp [handleImageError] at h
-      · simp only at h
-        split at h
-        · simp [handleImageError] at h
-        · split at h
-          · simp [handleImageError] at h
-          · split at h
-            · simp [handleImageError] at h
-            · exact ih _ x h
-
-theorem removeAll_fresh (tmp : Tmp) (fresh : Nat) (ls : List Nat) (hf : ∀ x ∈ tmp, x.name ≠ fresh) :
-    removeAll (⟨fresh, ls⟩ :: tmp) fresh = tmp := by
-  unfold removeAll
-  simp only [List.filter_cons, bne_self_eq_false, Bool.false_eq_true, if_false]
-  rw [List.filter_eq_self]
-  intro x hx; simp [hf x hx]
 
 /-- **A failed load leaves TMPDIR exactly as it found it** — whichever step failed. -/
 theorem C06_load_failed_restores (tmp : Tmp) (fresh : Nat) (r : Run) (hf : ∀ x ∈ tmp, x.name ≠ fresh)
@@ -165,3 +91,105 @@ example : fromV1Image exTmp 1 ⟨true, true, true, [okL, { okL with filled := fa
 example : fromV1Image exTmp 1 ⟨true, true, true, [okL, okL]⟩ = (some 1, [⟨1, [0, 1]⟩, ⟨7, [0]⟩]) := by decide
 
 end Scalibr.ImageLife
+
+namespace Scalibr.LoadDisk
+open Scalibr.GoPath Scalibr.Unpack
+
+/-- the loader's layer directories are called `layer-<i>` -/
+def layerName (i : Nat) : String := "layer-" ++ toString i
+
+theorem layerName_ne_dotdot (i : Nat) : layerName i ≠ ".." := by
+  intro h
+  have := congrArg String.length h
+  unfold layerName at this
+  rw [String.length_append] at this
+  have h6 : "layer-".length = 6 := by decide
+  have h2 : "..".length = 2 := by decide
+  omega
+
+/-- the state when the load starts satisfies the invariant -/
+theorem NL_start (D : Path) (s0 : FS) (hD : s0.get D = some .dir)
+    (hnl : ∀ p t, isPrefix D p = true → s0.get p ≠ some (.link t)) : NL D s0 s0 :=
+  ⟨fun _ _ => rfl, fun p t hp hg => hnl p t hp hg, hD⟩
+
+/-- **Loading never creates, modifies or deletes anything outside the image's extraction directory** — whatever entry
+names, link targets, entry orders and layers the archives contain, whichever entries reach the disk, whether the load
+succeeds or fails part-way (and is cleaned up). -/
+theorem C06_load_disk_outside_unchanged (D : Path) (s0 : FS) (ls : List LayerIn) (hD : s0.get D = some .dir)
+    (hnl : ∀ p t, isPrefix D p = true → s0.get p ≠ some (.link t)) (hn : ∀ l ∈ ls, l.name ≠ "..") :
+    ∀ p, isPrefix D p = false → (load D s0 ls).2.get p = s0.get p := by
+  intro p hp
+  have hS := layers_safe ls s0 hn (NL_start D s0 hD hnl)
+  unfold load
+  cases hm : layers D s0 ls with
+  | ok s1 => rw [hm] at hS; exact hS.1 p hp
+  | outside s1 => rw [hm] at hS; simp only [removeTree, MkRes.state, hp, Bool.false_eq_true, if_false]; exact hS.1 p hp
+  | fail s1 => rw [hm] at hS; simp only [removeTree, MkRes.state, hp, Bool.false_eq_true, if_false]; exact hS.1 p hp
+
+/-- **No symbolic link is left inside the extraction directory** (so none resolves to a location outside it): links of
+the image exist in the path tree only. -/
+theorem C06_load_disk_no_link_inside (D : Path) (s0 : FS) (ls : List LayerIn) (hD : s0.get D = some .dir)
+    (hnl : ∀ p t, isPrefix D p = true → s0.get p ≠ some (.link t)) (hn : ∀ l ∈ ls, l.name ≠ "..") :
+    ∀ p t, isPrefix D p = true → (load D s0 ls).2.get p ≠ some (.link t) := by
+  intro p t hp hg
+  have hS := layers_safe ls s0 hn (NL_start D s0 hD hnl)
+  unfold load at hg
+  cases hm : layers D s0 ls with
+  | ok s1 => rw [hm] at hS hg; exact hS.2.1 p t hp hg
+  | outside s1 => rw [hm] at hg; simp [removeTree, hp] at hg
+  | fail s1 => rw [hm] at hg; simp [removeTree, hp] at hg
+
+/-- a failed load leaves nothing at or below the extraction directory -/
+theorem C06_load_disk_failed_gone (D : Path) (s0 : FS) (ls : List LayerIn) (h : (load D s0 ls).1 = false) :
+    ∀ p, isPrefix D p = true → (load D s0 ls).2.get p = none := by
+  intro p hp
+  unfold load at h ⊢
+  cases hm : layers D s0 ls with
+  | ok s1 => rw [hm] at h; cases h
+  | outside s1 => simp [removeTree, hp]
+  | fail s1 => simp [removeTree, hp]
+
+/-- **After clean-up** (`os.RemoveAll` of the extraction directory, after a successful or a failed load) the sandbox is
+what `os.MkdirTemp` found, and the extraction directory is gone. -/
+theorem C06_load_disk_cleanup (D : Path) (s0 : FS) (ls : List LayerIn) (hD : s0.get D = some .dir)
+    (hnl : ∀ p t, isPrefix D p = true → s0.get p ≠ some (.link t)) (hn : ∀ l ∈ ls, l.name ≠ "..") (p : Path) :
+    (removeTree D (load D s0 ls).2).get p = if isPrefix D p then none else s0.get p := by
+  cases hp : isPrefix D p with
+  | true => simp [removeTree, hp]
+  | false =>
+    simp only [removeTree, hp, Bool.false_eq_true, if_false]
+    exact C06_load_disk_outside_unchanged D s0 ls hD hnl hn p hp
+
+/-! ### the model is not containment by construction, and the theorems are not vacuous -/
+
+def mkFS (l : List (Path × Obj)) : FS := l.foldl (fun s x => s.put x.1 x.2) ⟨fun _ => none, []⟩
+def exD : Path := ["tmp", "img"]
+/-- an entry by the '/'-separated components of its name (`abs`: the name begins with "/") -/
+def ent (typ : Char) (name : List String) (cid : Nat := 1) (abs : Bool := false) : TarEntry := ⟨typ, abs, name, cid, false, [], ""⟩
+/-- sandbox: tmp/img (just made), victim/secret -/
+def exS0 : FS := mkFS [(["tmp"], .dir), (["tmp","img"], .dir), (["victim"], .dir), (["victim","secret"], .file 7)]
+/-- the same with a symbolic link `tmp/img/layer-0/k -> ../../../victim` already there -/
+def exBad : FS := (exS0.put ["tmp","img","layer-0"] .dir).put ["tmp","img","layer-0","k"] (.link ⟨false, ["..","..","..","victim"], "../../../victim"⟩)
+
+/-- with a link below `D` at the start (hypothesis `hnl` violated) the very same operations overwrite `victim/secret`
+and create `victim/pwn`: `mkdirAllOS` / `openCreate` follow links and test nothing -/
+theorem C06_load_disk_link_would_escape :
+    let r := load exD exBad [⟨"layer-0", [(ent 'r' ["k","secret"] 9, true), (ent 'r' ["k","pwn"] 9, true)]⟩]
+    r.1 = true ∧ r.2.get ["victim","secret"] = some (.file 9) ∧ r.2.get ["victim","pwn"] = some (.file 9) := by decide
+
+/-- hostile names on the fresh directory: `../../victim/x`, `/victim/secret`, `..`, a link `k` and `k/secret`, `a/../../b/`, `./c//d`: all
+inside (or skipped), `victim` untouched, and the files that are written are where the loader means them -/
+def exHostile : List LayerIn :=
+  [⟨"layer-0", [(ent 'r' ["..","..","victim","x"], true), (ent 'r' ["","victim","secret"] 5 true, true), (ent 'd' [".."], true),
+                (ent 'l' ["k"], true), (ent 'r' ["k","secret"] 9, true), (ent 'd' ["a","..","..","b",""], true), (ent 'r' [".","c","","d"] 4, true)]⟩]
+example :
+    let r := load exD exS0 exHostile
+    r.1 = true ∧ r.2.get ["victim","secret"] = some (.file 7) ∧ r.2.get ["victim","x"] = none ∧
+    r.2.get ["tmp","img","layer-0","victim","secret"] = some (.file 5) ∧ r.2.get ["tmp","img","layer-0","k","secret"] = some (.file 9) ∧
+    r.2.get ["tmp","img","layer-0","c","d"] = some (.file 4) ∧ r.2.get ["tmp","img","b"] = none := by decide
+/-- a file used as a directory is the fatal kind `c`: the load fails and the directory is removed -/
+example :
+    let r := load exD exS0 [⟨"layer-0", [(ent 'r' ["a"], true), (ent 'r' ["a","b"], true)]⟩]
+    r.1 = false ∧ r.2.get ["tmp","img"] = none ∧ r.2.get ["tmp","img","layer-0","a"] = none ∧ r.2.get ["victim","secret"] = some (.file 7) := by decide
+
+end Scalibr.LoadDisk
